@@ -112,6 +112,8 @@ def run(ctx):
     eff.check_fwd(ctx, [("edgegraph.output.pyvis.pyvis_render_customizable", "make_pyvis_net", {"show_buttons_filter": None})])
     from rules import hist
     hist.run(ctx, res, 'C15', extra=('rules.histobs', 'pyvis'))       # composition: histories through the public API against the reference model (rules/hist.py)
+    from rules import scale
+    scale.run(ctx, res, 'C15', extra=('rules.histobs', 'pyvis'))      # the same on graphs whose collections have the sizes the tree names (rules/scale.py)
     common.vacuity(res, "HISTORY", 250)
     common.vacuity(res, "EVENTS", 80)
     res.analysed = common.analysed(ctx, [FN, "edgegraph.output.pyvis.pyvis_render_customizable"])
